@@ -63,3 +63,92 @@ Section KS.
       destruct (dget (k_dict a) f); [apply IHl | intros [= <-]; reflexivity].
   Qed.
 End KS.
+
+(* ------------------------------------------------------------------ *)
+(* key generation: a key requested public-only is public-only          *)
+(* ------------------------------------------------------------------ *)
+Section GenerateFacts.
+  Variables (sk pk : Type).
+  Variable pub_of : sk -> pk.
+  Variable fresh : kind -> nat -> sk.
+  Variable export_private : kind -> sk -> kd.
+  Variable export_public : kind -> pk -> kd.
+  Variable private_bytes : sk -> encoding -> option bytes -> bytes.
+  Variable public_bytes : pk -> encoding -> bytes.
+  (* contract of binding.export_public_key: only non-private members *)
+  Hypothesis export_public_clean :
+    forall k p m, In m (dkeys (export_public k p)) -> member_private (value_registry k) m = false.
+
+  Notation class_gen := (class_generate sk pk pub_of fresh).
+  Notation reg_gen := (registry_generate sk pk pub_of fresh).
+  Notation ks_gen := (keyset_generate sk pk pub_of fresh).
+  Notation gk := (g_key sk pk export_private export_public).
+
+  (* the registry wrapper hands the flag through unchanged *)
+  Lemma registry_is_class k i private : reg_gen true k i private = class_gen k i private.
+  Proof. reflexivity. Qed.
+
+  Lemma class_generate_flag k i private g :
+    class_gen k i private = Ok g ->
+    g_kind g = k /\ g_is_private sk pk g = (match k with KOct => true | _ => py_truth private end) /\
+    g_raw g = (if g_is_private sk pk g then RawPriv (fresh k i) else RawPub (pub_of (fresh k i))).
+  Proof.
+    unfold class_generate, g_is_private.
+    destruct k; simpl; destruct (py_truth private); simpl; try discriminate;
+      intros [= <-]; simpl; auto.
+  Qed.
+
+  Lemma generate_public_is_public k i private params g :
+    k <> KOct -> py_truth private = false ->
+    (forall m, In m (dkeys params) -> member_private (value_registry k) m = false) ->
+    reg_gen true k i private = Ok g ->
+    is_private (gk g params) = false /\
+    (exists d, key_as_dict (gk g params) PNone [] = Ok d /\
+               forall m, In m (dkeys d) -> member_private (value_registry k) m = false) /\
+    (forall flag ps, py_truth flag = true -> key_as_dict (gk g params) flag ps = Err EValue) /\
+    (forall enc pw,
+       as_bytes sk pk pub_of private_bytes public_bytes (g_raw g) enc PNone pw =
+       if encoding_ok enc then Ok (public_bytes (pub_of (fresh k i)) enc) else Err EValue) /\
+    (forall enc pw, exists e,
+       as_bytes sk pk pub_of private_bytes public_bytes (g_raw g) enc (PBool true) pw = Err e).
+  Proof.
+    intros N F P E. rewrite registry_is_class in E.
+    assert (g = {| g_kind := k; g_raw := RawPub (pub_of (fresh k i)) |}) as ->.
+    { unfold class_generate in E. rewrite F in E. destruct k; try congruence; injection E as <-; reflexivity. }
+    assert (is_private (gk {| g_kind := k; g_raw := RawPub (pub_of (fresh k i)) |} params) = false) as IP.
+    { unfold is_private, g_key. simpl. destruct k; try congruence; reflexivity. }
+    split; [exact IP|]. split; [|split; [|split]].
+    - unfold key_as_dict. rewrite as_dict_full_copy; [| reflexivity | discriminate].
+      eexists. split; [reflexivity|]. intros m Hm. simpl in Hm.
+      unfold g_dict_value in Hm. simpl in Hm.
+      apply dkeys_dset in Hm. destruct Hm as [Hm| ->].
+      + apply dkeys_dupdate in Hm. destruct Hm as [Hm|Hm];
+          [exact (export_public_clean _ _ _ Hm) | exact (P _ Hm)].
+      + apply kid_kty_epk_not_private.
+    - intros flag ps T. unfold key_as_dict. rewrite IP.
+      apply as_dict_private_on_public. exact T.
+    - intros enc pw. unfold as_bytes, dump_pem_key. simpl. destruct (encoding_ok enc); reflexivity.
+    - intros enc pw. unfold as_bytes, dump_pem_key. simpl. destruct (encoding_ok enc); eexists; reflexivity.
+  Qed.
+
+  Lemma keyset_generate_public k private count l :
+    k <> KOct -> py_truth private = false ->
+    ks_gen true k private count = Ok l ->
+    length l = count /\ Forall (fun g => g_kind g = k /\ g_is_private sk pk g = false) l.
+  Proof.
+    intros N F. revert l. induction count as [|n IH]; intros l; cbn [keyset_generate].
+    - intros [= <-]. split; [reflexivity | constructor].
+    - destruct (ks_gen true k private n) as [rest|] eqn:E; cbn [bind]; [|discriminate].
+      destruct (reg_gen true k n private) as [g|] eqn:G; cbn [bind]; [|discriminate].
+      intros [= <-]. destruct (IH rest eq_refl) as [L A]. split.
+      + rewrite app_length, L. simpl. apply Nat.add_1_r.
+      + apply Forall_app. split; [exact A|]. constructor; [|constructor].
+        rewrite registry_is_class in G. apply class_generate_flag in G.
+        destruct G as [K [I _]]. split; [exact K|]. rewrite I, F. destruct k; congruence.
+  Qed.
+
+  (* oct keys cannot be requested public-only *)
+  Lemma generate_oct_public_refused i private :
+    py_truth private = false -> reg_gen true KOct i private = Err EValue.
+  Proof. intro F. unfold registry_generate, class_generate. rewrite F. reflexivity. Qed.
+End GenerateFacts.
